@@ -528,6 +528,8 @@ func c16streamRequests(rep *vh.Report, seed uint64, idx int) {
 
 // c16long: 33 s run: no repeat for a sender earlier than 30 s (thorough tier only).
 func c16long(rep *vh.Report) {
+	// senders that appear 0, 2 and 5 s after the node started (the node's own housekeeping runs on its own clock) and
+	// keep sending heartbeats: per sender, no second batch of requests earlier than 30 s after the previous one
 	tr := fake.NewTransport("long")
 	node := &gomavlib.Node{Endpoints: []gomavlib.EndpointConf{gomavlib.EndpointCustom{ReadWriteCloser: tr}}, Dialect: testDialect, OutVersion: gomavlib.V2, OutSystemID: 9,
 		HeartbeatDisable: true, StreamRequestEnable: true}
@@ -535,35 +537,65 @@ func c16long(rep *vh.Report) {
 		rep.HarnessError(err.Error())
 		return
 	}
+	var events int64
 	go func() {
-		for range node.Events() {
+		for e := range node.Events() {
+			if _, ok := e.(*gomavlib.EventStreamRequested); ok {
+				atomic.AddInt64(&events, 1)
+			}
 		}
 	}()
+	total := 37 * time.Second
+	if vh.Thorough() {
+		total = 68 * time.Second // two renewals
+	}
+	starts := map[byte]time.Duration{7: 0, 8: 2 * time.Second, 9: 5 * time.Second}
 	start := time.Now()
-	for time.Since(start) < 33*time.Second {
-		tr.Feed(hbFrame(7, 7, 3, 0))
-		time.Sleep(500 * time.Millisecond)
+	for time.Since(start) < total {
+		for sys, t0 := range starts {
+			if time.Since(start) >= t0 {
+				tr.Feed(hbFrame(sys, 7, 3, 0))
+			}
+		}
+		time.Sleep(250 * time.Millisecond)
 	}
 	if !safeClose(rep, node) {
 		return
 	}
-	var times []time.Duration
+	batches := map[byte][]time.Duration{} // per target system: time of every request
 	for _, w := range tr.Writes() {
-		times = append(times, time.Duration(w.T))
-	}
-	rep.Set("long_run_request_count", len(times))
-	if len(times) < 7 {
-		rep.Violation("what=sr-count", "no stream requests in the long run", nil)
-		return
-	}
-	first := times[0]
-	for i, t := range times {
-		if i >= 7 && t-first < 25*time.Second {
-			rep.Violation("what=sr-repeat", fmt.Sprintf("stream requests repeated %v after the first ones (not before 30 s)", t-first), nil)
-			break
+		f, _, st := ref.ParseAt(w.Data, 0)
+		if st != ref.ParseOK || f.MsgID != 66 || len(f.Payload) < 3 {
+			continue
 		}
+		batches[f.Payload[2]] = append(batches[f.Payload[2]], time.Duration(w.T))
 	}
+	nreq := 0
+	for sys := range starts {
+		ts := batches[sys]
+		nreq += len(ts)
+		if len(ts) < 7 {
+			rep.Violation("what=sr-count", fmt.Sprintf("sender %d got %d stream requests in the long run", sys, len(ts)), nil)
+			continue
+		}
+		if len(ts)%7 != 0 {
+			rep.Violation("what=sr-count", fmt.Sprintf("sender %d got %d stream requests in the long run (not a multiple of seven)", sys, len(ts)), nil)
+		}
+		for i := 7; i < len(ts); i += 7 {
+			if gap := ts[i] - ts[i-7]; gap < 29*time.Second {
+				rep.Violation("what=sr-repeat", fmt.Sprintf("the stream requests to a sender first seen %v after the node started were repeated %v after the previous ones (not within 30 s)",
+					starts[sys], gap.Round(100*time.Millisecond)), nil)
+				break
+			}
+		}
+		rep.Count("long_run_batches", len(ts)/7)
+	}
+	if ev := int(atomic.LoadInt64(&events)); ev*7 != nreq {
+		rep.Violation("what=sr-event", fmt.Sprintf("%d stream-requested events for %d requests in the long run", ev, nreq), nil)
+	}
+	rep.Set("long_run_request_count", nreq)
 	rep.Count("long_runs", 1)
+	rep.Eval(1)
 }
 
 func TestC16(t *testing.T) {
@@ -573,10 +605,19 @@ func TestC16(t *testing.T) {
 		"fields, sound upper bound count <= floor(elapsed/period), median spacing in [0.8,1.3] x period (re-run at a larger period before a verdict), equal counts on all channels; zero frames when disabled / dialect nil / " +
 		"dialect lacks id 0 / non-standard id 0. stream requests: 4..40 (channel, system, component, autopilot) senders over 1..4 channels, three heartbeats each interleaved with other messages, first heartbeats of " +
 		"different channels fed simultaneously; exactly the seven streams {1,2,3,6,10,11,12} at the configured rate, start_stop 1, to the sender on its channel only, one event per sender, nothing for other autopilots, " +
-		"other messages, feature disabled or dialect without id 66; thorough adds a 33 s run (no repeat before 30 s). distinct = configurations")
+		"other messages, feature disabled or dialect without id 66; a 37 s (thorough 68 s) run in a child process of its own with senders first seen 0, 2 and 5 s after the node started: no repeat earlier than 30 s after the previous batch. distinct = configurations")
 	rep.Assume("spacing is judged on the median and only after a re-run at a 5x larger period also fails (load robustness)")
 	seed := shardSeed()
 	shard, nsh := shardInfo()
+	if nsh > 1 {
+		// the last child process only runs the long scenario (37 s / 68 s of real time: the 30 s are a constant of the library)
+		if shard == nsh-1 {
+			c16long(rep)
+			rep.Floor("long_runs", 1)
+			return
+		}
+		nsh--
+	}
 	n := vh.Pick(6, 200)
 	for i := 0; i < n; i++ {
 		if i%nsh != shard {
@@ -603,9 +644,6 @@ func TestC16(t *testing.T) {
 		if i%nsh == shard {
 			c16streamRequests(rep, seed, i)
 		}
-	}
-	if vh.Thorough() && shard == nsh-1 {
-		c16long(rep)
 	}
 	rep.Floor("heartbeats_seen", 100)
 	rep.Floor("stream_requests_seen", 100)
